@@ -110,12 +110,16 @@ func init() {
 	})
 	eng.Register(&eng.Scenario{
 		Name: "refcount-released-cb", Props: []string{"C10"}, MustFinish: true, ObsNames: stdObs,
-		Doc:   "RefCount.ResolveWithReleased: the holder obtains a value and keeps it; then (quiescence-gated) the value is invalidated by released() or by a context change (choice) while other references come and go; the released callback must have fired exactly once by the next quiescent state and never again",
+		Doc:   "RefCount.ResolveWithReleased: the holder obtains a value and keeps it; then (quiescence-gated) the value is invalidated by released(), SetContext(fresh), ClearContext, or SetContext(fresh) with a replacement resolver call that never returns (choice) while other references come and go; the released callback must have fired exactly once by the next quiescent state and never again",
 		Quick: eng.Bounds{PB: 3, Delay: true}, Thorough: eng.Bounds{PB: 4, Delay: true},
 		Body: func() {
-			how := vsched.Choose(2)
-			mode := mValue
-			e := newRC2(bg, false, first(mode))
+			how := vsched.Choose(4)
+			e := newRC2(bg, false, func(i int) int {
+				if how == 3 && vsched.Ctr(xHolding) != 0 {
+					return mLate // the resolver call replacing the held value does not return
+				}
+				return mValue
+			})
 			gI, gH, gF := &vsched.Gate{}, &vsched.Gate{}, &vsched.Gate{}
 			vsched.OnQuiescent(func() bool {
 				switch vsched.CtrAdd(xPhase, 1) {
@@ -168,6 +172,8 @@ func init() {
 						vsched.CtrSet(rcInv0+i, 1)
 						f()
 					}
+				} else if how == 2 {
+					e.setContext(nil)
 				} else {
 					e.setContext(context.WithValue(bg, ctxKey{}, 2))
 				}
@@ -176,6 +182,9 @@ func init() {
 			if vsched.Ctr(xRelCb) > 1 {
 				fail("C10.released-cb-count", "released callback fired %d times", vsched.Ctr(xRelCb))
 			}
+			e.finalRelease()
+			e.setContext(nil)
+			vsched.Settle()
 			e.finalRelease()
 		},
 	})
